@@ -177,6 +177,11 @@ def run(ctx: Ctx):
         if clause.startswith("P:C05"):
             case = dict(meta[idx]); case["impl_equal"] = known
             ctx.fail(clause, case, ev[idx].get("parts"), None)
+        elif clause == "P:C08:line-roundtrip":
+            # "splitting that line returns ... the same parameters": the clause that C08 owns is C05's as well (values free of
+            # DQUOTE and control characters, where the round trip is required)
+            case = dict(meta[idx]); case["impl_equal"] = known
+            ctx.fail("P:C05:same-parameters", case, ev[idx].get("parts"), None)
     ctx.assumptions += ["a bare CR is not a line break for RFC 5545 framing nor for this parser",
                         "folding is exact (C06)", "structure = component names, property names, parameter names"]
     # ------------------------------------------------------------- SUITE: calls observed in the repository's own tests
